@@ -176,3 +176,21 @@ for _c in _c11.CONTRACTS:
     if _c.key.startswith('pywbem_mock/_namespaceprovider.py::CIMNamespaceProvider.'):
         _c.home_class_specs = _c11.CLASS_SPECS      # verified with the class view of its home module (C11)
         CONTRACTS.append(_c)
+
+# ---- further contracts of this property live in the sibling file C10_mod.py (same conventions)
+import importlib.util as _ilu_C10_mod
+import os as _os_C10_mod
+import sys as _sys_C10_mod
+_p_C10_mod = _os_C10_mod.path.join(_os_C10_mod.path.dirname(_os_C10_mod.path.abspath(__file__)), 'C10_mod.py')
+if _os_C10_mod.path.exists(_p_C10_mod):
+    _s_C10_mod = _ilu_C10_mod.spec_from_file_location('contracts_C10_mod', _p_C10_mod)
+    _m_C10_mod = _ilu_C10_mod.module_from_spec(_s_C10_mod)
+    _sys_C10_mod.modules['contracts_C10_mod'] = _m_C10_mod
+    _sys_C10_mod.modules.setdefault('contracts_C10', _sys_C10_mod.modules.get('contracts_C10') or _sys_C10_mod.modules[__name__])
+    _s_C10_mod.loader.exec_module(_m_C10_mod)
+    CONTRACTS.extend(_m_C10_mod.CONTRACTS)
+    for _k, _v in getattr(_m_C10_mod, 'CLASS_SPECS', {}).items():
+        _d = CLASS_SPECS.setdefault(_k, {})
+        for _a, _s in _v.items():
+            _d.setdefault(_a, _s)
+    LEMMAS = list(globals().get('LEMMAS', [])) + list(getattr(_m_C10_mod, 'LEMMAS', []))
